@@ -24,7 +24,8 @@ class Grid:
         self.dim = len(shape)
         """int: Number of dimensions."""
 
-        self.shape = shape
+        # Keep a private copy; the caller may go on using (and modifying) its container.
+        self.shape = tuple(shape) if isinstance(shape, tuple) else list(shape)
         """tuple: Shape of grid, using matrix/tensor indexing."""
 
         self.voxel_size = (
